@@ -92,37 +92,209 @@ class SymStr:
                 return True
         return False
 
-    def strip(self, *a):
+    # ---- stripping -------------------------------------------------------------------------------------------------
+    @staticmethod
+    def _strip_pred(a):
         if a and a[0] is not None:
-            raise core.HarnessError('strip(chars) not modelled')
+            cs = chars(a[0])
+            return lambda c: any(c.eq(x) for x in cs)
+        return lambda c: c.isspace()
+
+    def strip(self, *a):
+        return self.lstrip(*a).rstrip(*a)
+
+    def lstrip(self, *a):
+        pred = self._strip_pred(a)
         i, j = 0, len(self.cs)
-        while i < j and self.cs[i].isspace():
+        while i < j and pred(self.cs[i]):
             i += 1
-        while j > i and self.cs[j - 1].isspace():
-            j -= 1
         return SymStr(self.cs[i:j])
 
-    def startswith(self, p):
-        pc = chars(p)
-        if len(pc) > len(self.cs):
-            return False
-        return all(a.eq(b) for a, b in zip(self.cs, pc))
+    def rstrip(self, *a):
+        pred = self._strip_pred(a)
+        j = len(self.cs)
+        while j > 0 and pred(self.cs[j - 1]):
+            j -= 1
+        return SymStr(self.cs[:j])
 
+    # ---- prefix / suffix / search -----------------------------------------------------------------------------------
+    def _match_at(self, i, pc):
+        if i < 0 or i + len(pc) > len(self.cs):
+            return False
+        return all(a.eq(b) for a, b in zip(self.cs[i:i + len(pc)], pc))
+
+    def startswith(self, p, start=0):
+        if isinstance(p, tuple):
+            return any(self.startswith(q, start) for q in p)
+        return self._match_at(start, chars(p))
+
+    def endswith(self, p):
+        if isinstance(p, tuple):
+            return any(self.endswith(q) for q in p)
+        pc = chars(p)
+        return self._match_at(len(self.cs) - len(pc), pc)
+
+    def removeprefix(self, p):
+        return SymStr(self.cs[len(chars(p)):]) if len(chars(p)) and self.startswith(p) else SymStr(self.cs)
+
+    def removesuffix(self, p):
+        return SymStr(self.cs[:len(self.cs) - len(chars(p))]) if len(chars(p)) and self.endswith(p) else SymStr(self.cs)
+
+    def find(self, sub, start=0):
+        sc = chars(sub)
+        for i in range(start, len(self.cs) - len(sc) + 1):
+            if self._match_at(i, sc):
+                return i
+        return -1
+
+    def rfind(self, sub):
+        sc = chars(sub)
+        for i in range(len(self.cs) - len(sc), -1, -1):
+            if self._match_at(i, sc):
+                return i
+        return -1
+
+    def index(self, sub, start=0):
+        i = self.find(sub, start)
+        if i < 0:
+            raise ValueError('substring not found')
+        return i
+
+    def count(self, sub):
+        sc = chars(sub)
+        if not sc:
+            return len(self.cs) + 1
+        n = i = 0
+        while i <= len(self.cs) - len(sc):
+            if self._match_at(i, sc):
+                n += 1
+                i += len(sc)
+            else:
+                i += 1
+        return n
+
+    # ---- splitting --------------------------------------------------------------------------------------------------
     def split(self, sep=None, maxsplit=-1):
-        if sep is None or maxsplit != -1:
-            raise core.HarnessError('split() variant not modelled')
-        sc = chars(sep)
-        if len(sc) != 1:
-            raise core.HarnessError('multi-character separator not modelled')
-        out, cur = [], []
-        for c in self.cs:
-            if c.eq(sc[0]):
+        if sep is None:
+            out, cur, k = [], [], 0
+            i, n = 0, len(self.cs)
+            while i < n:
+                if self.cs[i].isspace():
+                    if cur:
+                        out.append(SymStr(cur))
+                        cur = []
+                        k += 1
+                    i += 1
+                    continue
+                if maxsplit != -1 and k >= maxsplit:
+                    rest = SymStr(self.cs[i:]).rstrip()
+                    out.append(rest)
+                    return out
+                cur.append(self.cs[i])
+                i += 1
+            if cur:
                 out.append(SymStr(cur))
+            return out
+        sc = chars(sep)
+        if not sc:
+            raise ValueError('empty separator')
+        out, cur, i, k = [], [], 0, 0
+        while i < len(self.cs):
+            if (maxsplit == -1 or k < maxsplit) and self._match_at(i, sc):
+                out.append(SymStr(cur))
+                cur = []
+                i += len(sc)
+                k += 1
+            else:
+                cur.append(self.cs[i])
+                i += 1
+        out.append(SymStr(cur))
+        return out
+
+    def rsplit(self, sep=None, maxsplit=-1):
+        if maxsplit == -1:
+            return self.split(sep, -1)
+        if sep is None:
+            raise core.HarnessError('rsplit(None, maxsplit) not modelled')
+        sc = chars(sep)
+        out, j, k = [], len(self.cs), 0
+        i = len(self.cs) - len(sc)
+        while i >= 0 and k < maxsplit:
+            if self._match_at(i, sc):
+                out.append(SymStr(self.cs[i + len(sc):j]))
+                j = i
+                i -= len(sc)
+                k += 1
+            else:
+                i -= 1
+        out.append(SymStr(self.cs[:j]))
+        return out[::-1]
+
+    def partition(self, sep):
+        i = self.find(sep)
+        if i < 0:
+            return SymStr(self.cs), '', ''
+        n = len(chars(sep))
+        return SymStr(self.cs[:i]), SymStr(self.cs[i:i + n]), SymStr(self.cs[i + n:])
+
+    def rpartition(self, sep):
+        i = self.rfind(sep)
+        if i < 0:
+            return '', '', SymStr(self.cs)
+        n = len(chars(sep))
+        return SymStr(self.cs[:i]), SymStr(self.cs[i:i + n]), SymStr(self.cs[i + n:])
+
+    _LINE_BREAKS = (10, 11, 12, 13, 28, 29, 30, 133, 8232, 8233)
+
+    def splitlines(self, keepends=False):
+        out, cur, i = [], [], 0
+        while i < len(self.cs):
+            c = self.cs[i]
+            brk = (c.t in self._LINE_BREAKS) if c.concrete else bool(SymBool(z3.Or([c.t == b for b in self._LINE_BREAKS])))
+            if brk:
+                end = [c]
+                if i + 1 < len(self.cs) and c.eq(Ch(13)) and self.cs[i + 1].eq(Ch(10)):
+                    end.append(self.cs[i + 1])
+                    i += 1
+                out.append(SymStr(cur + (end if keepends else [])))
                 cur = []
             else:
                 cur.append(c)
-        out.append(SymStr(cur))
+            i += 1
+        if cur:
+            out.append(SymStr(cur))
         return out
+
+    def replace(self, old, new, count=-1):
+        oc, nc = chars(old), chars(new)
+        if not oc:
+            raise core.HarnessError('replace with an empty pattern not modelled')
+        out, i, k = [], 0, 0
+        while i < len(self.cs):
+            if (count == -1 or k < count) and self._match_at(i, oc):
+                out += nc
+                i += len(oc)
+                k += 1
+            else:
+                out.append(self.cs[i])
+                i += 1
+        return SymStr(out)
+
+    def join(self, parts):
+        out = []
+        for k, p_ in enumerate(parts):
+            if k:
+                out += self.cs
+            out += chars(p_)
+        return SymStr(out)
+
+    def __mul__(self, k):
+        return SymStr(self.cs * int(k))
+
+    __rmul__ = __mul__
+
+    def __bool__(self):
+        return len(self.cs) > 0
 
     def eq_term(self, o):
         """z3 Bool: this string equals o (same length required)."""
